@@ -66,6 +66,7 @@ package lspcommon
 // boundaries keeps it WF - an induction the SMT back ends do not do unaided).
 //@ func (*FileMapCache).ApplyContentChanges
 //@   props C02
+//@   ensures[C02,C08,an-emptied-document-is-an-empty-text-not-no-text] result1 == nil ==> result0 != nil
 //@   sweep C01
 //@   opt infer
 //@   requires[protocol-conformant] forall(k, 0, len(changes), changes[k].Range == nil ==> changes[k].RangeLength == 0)
